@@ -411,7 +411,11 @@ fn serialise_router_advertisement(a: &RtrAdvertisement) -> Vec<u8> {
                 v.serialise(u32::try_from(prefix.valid.as_secs()).unwrap_or(u32::MAX));
                 v.serialise(u32::try_from(prefix.preferred.as_secs()).unwrap_or(u32::MAX));
                 v.serialise(0_u32);
-                v.serialise(&prefix.prefix);
+                /* RFC4861 Section 4.6.2: the bits after the prefix length must be zero. */
+                let mask = u128::MAX
+                    .checked_shl(128_u32.saturating_sub(prefix.prefixlen.into()))
+                    .unwrap_or(0);
+                v.serialise(&std::net::Ipv6Addr::from(u128::from(prefix.prefix) & mask));
             }
             NDOptionValue::RecursiveDnsServers((lifetime, servers)) => {
                 use std::convert::TryFrom as _;
